@@ -242,6 +242,15 @@ type overlappingFieldsCanBeMergedManager struct {
 
 	// per selectionSet
 	comparedFragments map[string]bool
+
+	// pairs of sub selection sets whose comparison is under way
+	comparingSubSelectionSets map[subSelectionSetPair]bool
+}
+
+// subSelectionSetPair identifies two non-empty selection sets by their first selections.
+type subSelectionSetPair struct {
+	a, b                 *ast.Selection
+	areMutuallyExclusive bool
 }
 
 func (m *overlappingFieldsCanBeMergedManager) findConflictsWithinSelectionSet(selectionSet ast.SelectionSet) []*ConflictMessage {
@@ -354,6 +363,21 @@ func (m *overlappingFieldsCanBeMergedManager) findConflictsBetweenSubSelectionSe
 	// comparedFragments belongs to the selection set the caller is examining: it is
 	// replaced below, so hand it back once the sub selection sets have been compared.
 	defer func(saved map[string]bool) { m.comparedFragments = saved }(m.comparedFragments)
+
+	// Only a cycle of fragments leads back to a pair of selection sets while that very pair
+	// is being compared, and following it again would never end. NoFragmentCycles reports
+	// the cycle; whatever conflict the pair has is found by the comparison under way.
+	if len(selectionSetA) > 0 && len(selectionSetB) > 0 {
+		pair := subSelectionSetPair{&selectionSetA[0], &selectionSetB[0], areMutuallyExclusive}
+		if m.comparingSubSelectionSets[pair] {
+			return nil
+		}
+		if m.comparingSubSelectionSets == nil {
+			m.comparingSubSelectionSets = make(map[subSelectionSetPair]bool)
+		}
+		m.comparingSubSelectionSets[pair] = true
+		defer delete(m.comparingSubSelectionSets, pair)
+	}
 
 	fieldsMapA, fragmentSpreadsA := getFieldsAndFragmentNames(selectionSetA)
 	fieldsMapB, fragmentSpreadsB := getFieldsAndFragmentNames(selectionSetB)
